@@ -227,7 +227,7 @@ import "github.com/google/gopacket"
 //@ props C03 C06 C05 C08
 //@ requires [aes.cipher] !isnil(a.cipher)
 //@ requires [buf] bufSmall(b)
-//@ invariant 0 [aes.padfill] 0 <= i && i <= padLength && forall(qk, 0, i, trailer[qk] == uint8(qk+1))
+//@ invariant 0 [aes.padfill] 0 <= iter && iter <= padLength && forall(qk, 0, iter, trailer[qk] == uint8(qk+1))
 //@ invariant 0 [aes.keep] forall(qk, 0, len(old(bufBytes(b))), bufBytes(b)[qk] == old(bufBytes(b)[qk]))
 //@ at NewCBCEncrypter assert [C03.aes-iv] window(arg[[]byte](1), bufBytes(b), 0, 16)
 //@ at NewCBCEncrypter assert [C03.aes-iv-fresh] randFills(arg[[]byte](1)) != old(randFills(arg[[]byte](1))) // every packet's IV is a draw of crypto/rand made for this packet
@@ -260,7 +260,7 @@ import "github.com/google/gopacket"
 //@ split s.PayloadType == PayloadTypeOEM
 //@ split s.Authenticated
 //@ requires [buf] bufSmall(b) && len(s.Signature) <= 64
-//@ invariant 0 [v2.padfill] 0 <= i && i <= int(s.Pad)
+//@ invariant 0 [v2.padfill] 0 <= iter && iter <= int(s.Pad)
 //@ at AppendBytes assert [C03.v2-header-written] len(bufBytes(b)) == ite(s.PayloadType == PayloadTypeOEM, 18, 12) + len(old(bufBytes(b))) ==> bufBytes(b)[0] == 6 &&
 //@    bufBytes(b)[1] == uint8(s.PayloadType)|ite(s.Encrypted, uint8(0x80), uint8(0))|ite(s.Authenticated, uint8(0x40), uint8(0)) &&
 //@    le32(bufBytes(b), ite(s.PayloadType == PayloadTypeOEM, 8, 2)) == s.ID && le32(bufBytes(b), ite(s.PayloadType == PayloadTypeOEM, 12, 6)) == s.Sequence &&
